@@ -2436,7 +2436,12 @@ impl<TR: Read> Deserializer<'_, TR> {
                     file_version: file_ver,
                     ephemeral_state: HashMap::new(),
                 };
-                Ok(T::deserialize(&mut deserializer)?)
+                let value = T::deserialize(&mut deserializer)?;
+                // Read the compressed stream to its end. The decompressor only reports a missing
+                // or damaged end-of-stream trailer when asked for data beyond the last byte, so
+                // without this a file truncated within that trailer would load successfully.
+                std::io::copy(&mut compressed_reader, &mut std::io::sink())?;
+                Ok(value)
             }
             #[cfg(not(feature = "bzip2"))]
             {
